@@ -272,7 +272,14 @@ pub fn attribute(
 }
 
 pub fn inputs(quick: bool) -> Vec<String> {
+    if let Ok(path) = std::env::var("C07_INPUT_FILE") {
+        // debugging aid: explore exactly the formulas of a file (one per line)
+        return std::fs::read_to_string(path).unwrap_or_default().lines().map(|l| l.trim_end_matches('.').to_string()).filter(|l| !l.is_empty()).collect();
+    }
     let mut v = family_g();
+    // deep chains: full depth for the termination check only (C18); the semantic check (C07)
+    // gets depth <= 3, where the unsolved quantifiers are still cheap to expand
+    v.extend(family_h(3));
     v.extend(family_f());
     if quick {
         let ab = family_ab();
@@ -306,14 +313,20 @@ pub enum Mode {
 
 pub fn run(mode: Mode, run: &Run) {
     let quick = run.quick();
-    let all = inputs(quick);
+    let mut all = inputs(quick);
+    if mode == Mode::C18 {
+        all.extend(family_h(if quick { 24 } else { 40 }));
+    }
+    if let Ok(path) = std::env::var("C07_DUMP_INPUTS") {
+        let _ = std::fs::write(path, all.join("\n"));
+    }
     let total = all.len();
     run.set_extra("inputs_generated", json!(total));
     run.set_extra("windows", json!([GW, GW + 3]));
     if mode == Mode::C07 {
         run.set_rule("every formula of families A-G (atoms, F_1, all quantifier prefixes over F_1, quantified 3-conjunctions, two-level quantifier shapes, depth-2 trees, rewrite-targeted patterns, translation shapes) x 3 portfolios x 3 strategies x all free-variable assignments over the active set x all interpretations; non-trivial = (formula, portfolio, strategy) whose output differs syntactically from its input, counted by distinct output");
     } else {
-        run.set_rule("every formula of families A-G x 3 portfolios: fixpoint iteration re-run pass by pass with cycle detection, then the real apply_fixpoint compared and re-applied; non-trivial = distinct number-of-passes/outputs of formulas that changed");
+        run.set_rule("every formula of families A-G and the deep chains of family H (depth <= 24, thorough 40, every level needing its own pass) x 3 portfolios: fixpoint iteration re-run pass by pass with cycle detection, then the real apply_fixpoint compared and re-applied; non-trivial = distinct number-of-passes/outputs of formulas that changed");
     }
     run.assume("generic formulas over predicates p/0, q/1, active set {1,2,a}; unsolved quantifiers over windows 5/8 (outer) and 11/14 (inner), verdicts must be window-stable");
     let sem0 = generic_sem();
